@@ -5,6 +5,7 @@
   preorder, and so are `Version.Compare` of the rpm library and of rhctag.
 -/
 import ClairModel.Model.RhcTag
+import ClairModel.Proofs.Version
 
 namespace ClairModel.RhcTag
 open ClairModel.Order ClairModel.Version
@@ -113,5 +114,291 @@ theorem rpmCmp_totalPre : TotalPre rpmCmp := by
 
 theorem cmp_totalPre : TotalPre cmp :=
   keyCmp_totalPre rpmCmp_totalPre (fun t : Tag => newVersion t.original)
+
+/-! ### numbers: the token comparison is the comparison of the values -/
+
+theorem natOfDigits_trimZeros (l : List Char) : natOfDigits (trimZeros l) = natOfDigits l := by
+  induction l with
+  | nil => rfl
+  | cons c cs ih =>
+    unfold trimZeros
+    by_cases hc : c = '0'
+    · subst hc
+      simp only [if_true, ih, natOfDigits_cons]
+      have : digitVal '0' = 0 := by decide
+      simp [this]
+    · simp [hc]
+
+theorem allDig_trimZeros {l : List Char} (h : AllDig l) : AllDig (trimZeros l) := by
+  induction l with
+  | nil => exact h
+  | cons c cs ih =>
+    unfold trimZeros
+    by_cases hc : c = '0'
+    · simp only [hc, if_true]; exact ih h.tail
+    · simp only [hc, if_false]; exact h
+
+/-- After trimming, a non-empty digit string starts with a non-zero digit, so
+    its value is at least 10^(length-1). -/
+theorem trimZeros_lower {l : List Char} (h : AllDig l) (hne : trimZeros l ≠ []) :
+    10 ^ ((trimZeros l).length - 1) ≤ natOfDigits (trimZeros l) := by
+  induction l with
+  | nil => simp [trimZeros] at hne
+  | cons c cs ih =>
+    unfold trimZeros at hne ⊢
+    by_cases hc : c = '0'
+    · simp only [hc, if_true] at hne ⊢; exact ih h.tail hne
+    · simp only [hc, if_false]
+      obtain ⟨d, hd, rfl⟩ := isDigChar_of_isDigit (h _ List.mem_cons_self)
+      have hd0 : d ≠ 0 := fun e => hc ((digChar_order d hd).2.2 e)
+      rw [natOfDigits_cons, digitVal_digitChar d hd, List.length_cons, Nat.add_sub_cancel]
+      have : 1 * 10 ^ cs.length ≤ d * 10 ^ cs.length := Nat.mul_le_mul_right _ (by omega)
+      omega
+
+/-- Digit strings of the same length: text order is value order. -/
+theorem strCmp_digits : ∀ {u w : List Char}, AllDig u → AllDig w → u.length = w.length →
+    strCmp u w = natCmp (natOfDigits u) (natOfDigits w)
+  | [], [], _, _, _ => by simp [strCmp, lexCmp, natOfDigits, natCmp]
+  | [], _ :: _, _, _, h => by simp at h
+  | _ :: _, [], _, _, h => by simp at h
+  | c :: u, e :: w, hu, hw, hl => by
+    have hl' : u.length = w.length := by simpa using hl
+    have ih := strCmp_digits hu.tail hw.tail hl'
+    obtain ⟨dc, hdc, rfl⟩ := isDigChar_of_isDigit (hu _ List.mem_cons_self)
+    obtain ⟨de, hde, rfl⟩ := isDigChar_of_isDigit (hw _ List.mem_cons_self)
+    have vu := natOfDigits_lt hu.tail
+    have vw := natOfDigits_lt hw.tail
+    unfold strCmp at ih ⊢
+    simp only [lexCmp, (digChar_order dc hdc).1, (digChar_order de hde).1, ih]
+    rw [natOfDigits_cons, natOfDigits_cons, digitVal_digitChar dc hdc, digitVal_digitChar de hde, hl']
+    rw [hl'] at vu
+    generalize 10 ^ w.length = P at vu vw ⊢
+    by_cases h₁ : dc < de
+    · have : (dc + 1) * P ≤ de * P := Nat.mul_le_mul_right _ (by omega)
+      rw [Nat.add_mul] at this
+      have e₁ : natCmp (48 + dc) (48 + de) = .lt := by unfold natCmp; simp; omega
+      have e₂ : natCmp (dc * P + natOfDigits u) (de * P + natOfDigits w) = .lt := by
+        unfold natCmp; simp; omega
+      simp [e₁, e₂, Ordering.then]
+    · by_cases h₂ : dc = de
+      · subst h₂
+        have e₁ : natCmp (48 + dc) (48 + dc) = .eq := natCmp_totalPre.refl _
+        simp only [e₁, Ordering.then]
+        unfold natCmp
+        by_cases h₃ : natOfDigits u < natOfDigits w
+        · have : dc * P + natOfDigits u < dc * P + natOfDigits w := by omega
+          simp [h₃, this]
+        · by_cases h₄ : natOfDigits u = natOfDigits w
+          · simp [h₄]
+          · have a : ¬ dc * P + natOfDigits u < dc * P + natOfDigits w := by omega
+            have b : ¬ dc * P + natOfDigits u = dc * P + natOfDigits w := by omega
+            simp [h₃, h₄, a, b]
+      · have : (de + 1) * P ≤ dc * P := Nat.mul_le_mul_right _ (by omega)
+        rw [Nat.add_mul] at this
+        have e₁ : natCmp (48 + dc) (48 + de) = .gt := by
+          unfold natCmp
+          have a : ¬ 48 + dc < 48 + de := by omega
+          simp [a, h₂]
+        have e₂ : natCmp (dc * P + natOfDigits u) (de * P + natOfDigits w) = .gt := by
+          unfold natCmp
+          have a : ¬ dc * P + natOfDigits u < de * P + natOfDigits w := by omega
+          have b : ¬ dc * P + natOfDigits u = de * P + natOfDigits w := by omega
+          simp [a, b]
+        simp [e₁, e₂, Ordering.then]
+
+theorem pow_le_pow_of_lt {a b : Nat} (h : a < b) : 10 ^ a ≤ 10 ^ (b - 1) :=
+  Nat.pow_le_pow_right (by decide) (by omega)
+
+/-- Two numeric tokens compare as their values. -/
+theorem tokCmp_num {x y : List Char} (hx : AllDig x) (hy : AllDig y) :
+    tokCmp (.num x) (.num y) = natCmp (natOfDigits x) (natOfDigits y) := by
+  have tx := allDig_trimZeros hx
+  have ty := allDig_trimZeros hy
+  have vx := natOfDigits_lt tx
+  have vy := natOfDigits_lt ty
+  simp only [tokCmp]
+  rw [← natOfDigits_trimZeros x, ← natOfDigits_trimZeros y]
+  by_cases h₁ : (trimZeros x).length > (trimZeros y).length
+  · have hne : trimZeros x ≠ [] := by intro e; simp [e] at h₁
+    have lo := trimZeros_lower hx hne
+    have := pow_le_pow_of_lt h₁
+    have a : ¬ natOfDigits (trimZeros x) < natOfDigits (trimZeros y) := by omega
+    have b : ¬ natOfDigits (trimZeros x) = natOfDigits (trimZeros y) := by omega
+    simp [h₁, natCmp, a, b]
+  · by_cases h₂ : (trimZeros y).length > (trimZeros x).length
+    · have hne : trimZeros y ≠ [] := by intro e; simp [e] at h₂
+      have lo := trimZeros_lower hy hne
+      have := pow_le_pow_of_lt h₂
+      have a : natOfDigits (trimZeros x) < natOfDigits (trimZeros y) := by omega
+      simp [h₁, h₂, natCmp, a]
+    · simp only [h₁, h₂, if_false]
+      exact strCmp_digits tx ty (by omega)
+
+/-! ### the projection on plain tags -/
+
+theorem spanP_fst (p : Char → Bool) (s : List Char) : ∀ c ∈ (spanP p s).1, p c = true := by
+  induction s with
+  | nil => intro c hc; simp [spanP] at hc
+  | cons x xs ih =>
+    unfold spanP
+    by_cases hx : p x = true
+    · simp only [hx, if_true]
+      intro c hc
+      rcases List.mem_cons.1 hc with rfl | hc
+      · exact hx
+      · exact ih c hc
+    · simp only [hx]
+      intro c hc; simp at hc
+
+/-- Numeric tokens consist of digits. -/
+theorem tokens_num : ∀ (fuel : Nat) (s : List Char) (d : List Char), Tok.num d ∈ tokens fuel s → AllDig d
+  | 0, _, _, h => by simp [tokens] at h
+  | _ + 1, [], _, h => by simp [tokens] at h
+  | fuel + 1, c :: cs, d, h => by
+    unfold tokens at h
+    by_cases ha : isAlpha c = true
+    · rw [if_pos ha] at h
+      rcases List.mem_cons.1 h with h | h
+      · cases h
+      · exact tokens_num fuel _ d h
+    · rw [if_neg ha] at h
+      by_cases hd : isDigit c = true
+      · rw [if_pos hd] at h
+        rcases List.mem_cons.1 h with h | h
+        · simp only [Tok.num.injEq] at h
+          subst h
+          intro x hx
+          rcases List.mem_cons.1 hx with rfl | hx
+          · exact hd
+          · exact spanP_fst isDigit cs x hx
+        · exact tokens_num fuel _ d h
+      · rw [if_neg hd] at h
+        by_cases ht : c = '~'
+        · rw [if_pos ht] at h
+          rcases List.mem_cons.1 h with h | h
+          · cases h
+          · exact tokens_num fuel _ d h
+        · rw [if_neg ht] at h
+          exact tokens_num fuel _ d h
+
+theorem cut_no_sep (sep : Char) (s : List Char) (h : sep ∉ s) : cut sep s = (s, none) := by
+  induction s with
+  | nil => rfl
+  | cons c cs ih =>
+    have hc : c ≠ sep := fun e => h (e ▸ List.mem_cons_self)
+    have := ih (fun hm => h (List.mem_cons_of_mem _ hm))
+    simp [cut, hc, this]
+
+theorem newVersion_no_colon (s : List Char) (h : ':' ∉ s) :
+    (newVersion s).epoch = 0 ∧ (newVersion s).version = (cut '-' s).1 := by
+  unfold newVersion
+  simp [cut_no_sep ':' s h]
+
+/-- What `plain v t` says, as a statement. -/
+theorem plain_spec {v : Bool} {t : Tag} (h : plain v t = true) :
+    ':' ∉ t.original ∧
+    ∃ dM rest, tokens (cut '-' t.original).1.length (cut '-' t.original).1
+        = (if v then [Tok.alpha ['v']] else []) ++ Tok.num dM :: rest ∧
+      (natOfDigits dM : Int) = t.major ∧ t.major < 2147483648 ∧
+      ((rest = [] ∧ t.minor = 0) ∨
+       ∃ dm rest', rest = Tok.num dm :: rest' ∧ (natOfDigits dm : Int) = t.minor ∧ t.minor < 2147483648) := by
+  unfold plain at h
+  simp only [Bool.and_eq_true, Bool.not_eq_true', List.contains_eq_mem, decide_eq_false_iff_not] at h
+  obtain ⟨hc, hm⟩ := h
+  refine ⟨hc, ?_⟩
+  generalize tokens (cut '-' t.original).1.length (cut '-' t.original).1 = toks at hm ⊢
+  have key : ∀ l, afterV v toks = some l → toks = (if v then [Tok.alpha ['v']] else []) ++ l := by
+    intro l hl
+    unfold afterV at hl
+    cases v with
+    | false => simp at hl; simp [hl]
+    | true =>
+      simp only [if_true] at hl
+      split at hl
+      · simp only [Option.some.injEq] at hl; subst hl; simp
+      · cases hl
+  split at hm
+  · rename_i dM rest hav
+    simp only [Bool.and_eq_true, decide_eq_true_eq] at hm
+    obtain ⟨⟨h₁, h₂⟩, h₃⟩ := hm
+    refine ⟨dM, rest, key _ hav, h₁, h₂, ?_⟩
+    split at h₃
+    · exact Or.inl ⟨rfl, by simpa using h₃⟩
+    · rename_i dm rest'
+      simp only [Bool.and_eq_true, decide_eq_true_eq] at h₃
+      exact Or.inr ⟨dm, rest', rfl, h₃.1, h₃.2⟩
+    · cases h₃
+  · cases hm
+
+theorem segsCmp_prefix (p : List Tok) (l m : List Tok) : segsCmp (p ++ l) (p ++ m) = segsCmp l m := by
+  induction p with
+  | nil => rfl
+  | cons x xs ih =>
+    have : tokCmp x x = .eq := by
+      rw [tokCmp_eq_key]; exact tokCmpE_totalPre.refl _
+    simp [segsCmp, this, ih, Ordering.then]
+
+/-- On plain tags with the same prefix the projection `Version(min)` never
+    inverts `Compare`. -/
+theorem proj_mono (v : Bool) (a b : Tag) (m : Bool) (ha : plain v a = true) (hb : plain v b = true)
+    (h : cmp a b ≠ .gt) : Version.cmp (project a m) (project b m) ≠ .gt := by
+  obtain ⟨ca, dMa, ra, hta, hMa, hMa', hma⟩ := plain_spec ha
+  obtain ⟨cb, dMb, rb, htb, hMb, hMb', hmb⟩ := plain_spec hb
+  obtain ⟨ea, va⟩ := newVersion_no_colon a.original ca
+  obtain ⟨eb, vb⟩ := newVersion_no_colon b.original cb
+  -- the comparison of the version parts is not `gt`
+  have hver : segsCmp (Tok.num dMa :: ra) (Tok.num dMb :: rb) ≠ .gt := by
+    intro hgt
+    apply h
+    unfold cmp
+    rw [rpmCmp_eq]
+    simp only [rpmCmpCore, thenCmp, keyCmp, ea, eb, intCmp_totalPre.refl, Ordering.then]
+    rw [rpmvercmp_eq (newVersion a.original).version, keyCmp, va, vb, hta, htb, segsCmp_prefix, hgt]
+  -- digits
+  have dA : AllDig dMa := tokens_num _ _ dMa (by rw [hta]; simp)
+  have dB : AllDig dMb := tokens_num _ _ dMb (by rw [htb]; simp)
+  simp only [segsCmp, tokCmp_num dA dB] at hver
+  -- the minors
+  have hmin : natCmp (natOfDigits dMa) (natOfDigits dMb) = .eq → a.minor ≤ b.minor ∧ 0 ≤ a.minor := by
+    intro heq
+    simp only [heq, Ordering.then] at hver
+    rcases hma with ⟨rfl, hz⟩ | ⟨dma, ra', rfl, hva, _⟩
+    · rcases hmb with ⟨_, hz'⟩ | ⟨dmb, rb', _, hvb, _⟩
+      · omega
+      · omega
+    · rcases hmb with ⟨rfl, _⟩ | ⟨dmb, rb', rfl, hvb, _⟩
+      · simp [segsCmp] at hver
+      · have da : AllDig dma := tokens_num _ _ dma (by rw [hta]; simp)
+        have db : AllDig dmb := tokens_num _ _ dmb (by rw [htb]; simp)
+        simp only [segsCmp, tokCmp_num da db] at hver
+        have : natCmp (natOfDigits dma) (natOfDigits dmb) ≠ .gt := by
+          intro hh; simp [hh, Ordering.then] at hver
+        have := natCmp_ne_gt.1 this
+        omega
+  have hmaj : natCmp (natOfDigits dMa) (natOfDigits dMb) ≠ .gt := by
+    intro hh; simp [hh, Ordering.then] at hver
+  have hle := natCmp_ne_gt.1 hmaj
+  have hmn0 : 0 ≤ a.minor ∧ a.minor < 2147483648 := by
+    rcases hma with ⟨_, hz⟩ | ⟨_, _, _, hva, hlt⟩ <;> omega
+  have hmn0b : 0 ≤ b.minor ∧ b.minor < 2147483648 := by
+    rcases hmb with ⟨_, hz⟩ | ⟨_, _, _, hvb, hlt⟩ <;> omega
+  unfold Version.cmp project
+  simp only [ne_eq, not_true_eq_false, if_false]
+  rw [toInt32_id (by omega) hMa', toInt32_id (by omega) hMb', toInt32_id (by omega) hmn0.2,
+    toInt32_id (by omega) hmn0b.2]
+  simp only [lexCmp, intCmp_totalPre.refl, Ordering.then]
+  by_cases hlt : natOfDigits dMa < natOfDigits dMb
+  · have : a.major < b.major := by omega
+    simp [intCmp_of_lt this]
+  · have heq : natOfDigits dMa = natOfDigits dMb := by omega
+    have hE : a.major = b.major := by omega
+    have := hmin (by rw [heq]; exact natCmp_totalPre.refl _)
+    rw [hE, intCmp_totalPre.refl]
+    simp only
+    by_cases hl2 : a.minor < b.minor
+    · simp [intCmp_of_lt hl2]
+    · have : a.minor = b.minor := by omega
+      rw [this, intCmp_totalPre.refl]
+      simp
 
 end ClairModel.RhcTag
